@@ -24,6 +24,22 @@ func runC10(r *Run, p *Prog) {
 	siblingRules(r, p, "C02", []string{"F2"}, "S7")
 	// S8: a connection whose peer has gone or stalls ends when its context is cancelled
 	siblingRules(r, p, "C17", []string{"D1", "D2", "D3"}, "S8")
+	// S11: no path of the service leaves the Service mutex held (or locks it twice): every connection's dispatch, the
+	// accept loop and Shutdown need it, so a single leaked lock hangs the whole service
+	siblingRules(r, p, "C16", []string{"LB"}, "S11")
+	// S12: error discipline of the service side of the package (errdisc.go)
+	r.Guard("S12", func() {
+		ro := DiscoverRoles(p)
+		svc := serviceSideFuncs(p, ro)
+		var fns []*ssa.Function
+		for _, f := range p.FuncsOf(pkgVarlink) {
+			if svc[f] {
+				fns = append(fns, f)
+			}
+		}
+		errorDiscipline(r, p, ro.T, "S12", fns)
+		r.Floor("S12", 5)
+	})
 	ro := DiscoverRoles(p)
 	T, cg := ro.T, ro.CG
 	if len(ro.ConnLoop) == 0 || ro.Handle == nil {
